@@ -459,6 +459,7 @@ func Run(k *fw.Case) {
 	// "in any state of the builder/pool": three cases in eight start from a state that earlier management
 	// calls produced - a rule removed, everything removed / cleared, a rule replaced incrementally
 	origNames := g.Known.Names()
+	origRules := append([]RRule{}, g.Known.Rules...)
 	loadText := g.Known.Text
 	var prepB func(rb *builder.RuleBuilder) error
 	var prepP func(p *engine.GenginePool) error
@@ -509,6 +510,12 @@ func Run(k *fw.Case) {
 			prepB = func(rb *builder.RuleBuilder) error { return rb.BuildRuleWithIncremental(txt) }
 			prepP = func(p *engine.GenginePool) error { return p.UpdatePooledRulesIncremental(txt) }
 		}
+	}
+	if state != "preloaded" && k.Index/8%3 == 0 {
+		// the very text the builder / pool was loaded with is submitted once more (byte-identical): a full
+		// build must install it again, an incremental build must merge it into what is there now
+		t = &Text{Class: ClassValid, S: loadText, How: "the text of the initial load, once more", Runnable: true, Rules: origRules, NamesKnown: true, Names: origNames}
+		k.Count("initial_text_submitted_again", 1)
 	}
 	k.Count("prior_state_"+state, 1)
 	kn := g.Known
